@@ -23,3 +23,7 @@ ASSUMPTIONS = KN.ASSUMPTIONS + ["numpy unique / vander / hstack / mask store (de
                                 "the value written to ll[n] is never rewritten (frame clause), so they hold for every row of every batch"]
 NOT_DECIDED = ["floating-point round-off and conditioning", "convergence of twobody's Kepler solver for e > 0.99",
                "that LAPACK reports success (info == 0) on every positive-definite input (the failure value INF is part of the contract)"]
+
+# the plumbing this property's claim runs through (contracts/chain.py): listed here too, so that a change inside it is caught by THIS check
+from . import chain as CH   # noqa: E402
+CH.extend(CONTRACTS, CH.readers() + CH.plumbing(('ll',)) + CH.tables(pack=True, unpack=False) + CH.wrapper())
